@@ -454,6 +454,7 @@ fn main() {
         "contended_entries": st.contended,
         "cross_cell_overlap": st.overlap,
         "cells_initialised": st.initialised,
+        "distinct_cells": st.distinct_cells,
         "interleaving_digests": digests,
         "digit_cover": cover.iter().map(|(i, d)| (*i as u32) * 256 + *d as u32).collect::<Vec<u32>>(),
         "failure": failure,
